@@ -414,7 +414,7 @@ func (w *provWalker) walkParam(x *ssa.Parameter, depth int) {
 func (p *Prog) StaticCallers(fn *ssa.Function) []*ssa.CallCommon {
 	p.callersOnce.Do(func() {
 		p.callers = map[*ssa.Function][]*ssa.CallCommon{}
-		for _, f := range p.ModFns {
+		for _, f := range append(append([]*ssa.Function{}, p.ModFns...), p.Wrappers()...) {
 			for _, b := range f.Blocks {
 				for _, in := range b.Instrs {
 					if ci, ok := in.(ssa.CallInstruction); ok {
